@@ -51,6 +51,7 @@ def im_core(ctx):
     c05.r05_4(ctx)   # the snapshot and the receiver are taken in the same `&self` call (else updates in between are lost)
     c05.r05_5(ctx)
     c05.r05_9(ctx)
+    c05.r05_11(ctx)
     c08.r08_2(ctx)   # one long-lived Sender, never cloned into something that outlives the vector
     c08.r08_4(ctx)
     fns = c07.txn_fns(F)
